@@ -121,6 +121,7 @@ class FileWeave:
         self.dropped = []
         self.rewrites = {}
         self.lost_hints = []
+        self.lost_loops = []
 
     # -- helpers
     def drop(self, a, b, what):
@@ -271,7 +272,9 @@ class FileWeave:
             except (IndexError, ValueError):
                 raise WeaveError('%r: missing " :: <ordinal>"' % d)
             if n > len(loops):
-                raise AnchorLost('%r: fn %s has %d loops' % (d, key, len(loops)))
+                self.lost_loops.append(repr(d))
+                d.used = True
+                continue
             self.ins(loops[n - 1][1] + 1, '\n' + d.payload, d)
             d.used = True
         for d in self.find_dirs('loop', key):
@@ -282,14 +285,19 @@ class FileWeave:
                 raise WeaveError('%r: missing " :: <ordinal>"' % d)
             n = int(rest.split()[0])
             if n > len(loops):
-                raise AnchorLost('%r: fn %s has %d loops' % (d, key, len(loops)))
+                # the loop is gone: its invariant is meaningless; the function is verified without it
+                self.lost_loops.append(repr(d))
+                d.used = True
+                continue
             kwpos, bracepos, _ = loops[n - 1]
             mm = re.search(r'\biter=(\w+)', rest)
             if mm:
                 # R7: `for x in EXPR {`  ->  `for x in it: EXPR {`   (ghost iterator label)
                 hm = re.match(r'for\s+[^{]*?\bin\s+', m[kwpos:bracepos])
                 if not hm:
-                    raise AnchorLost('%r: loop %d of %s is not a for-in loop' % (d, n, key))
+                    self.lost_loops.append(repr(d))
+                    d.used = True
+                    continue
                 self.ins(kwpos + hm.end(), mm.group(1) + ': ', d)
             self.ins(bracepos, '\n' + d.payload.rstrip() + '\n        ', d)
             d.used = True
@@ -309,9 +317,11 @@ class FileWeave:
         for (key, a, b) in self.fns:
             if any('external_body' in d.payload for d in self.find_dirs('attr', key)):
                 ext.append((a, b))
-        for mm in re.finditer(r'\bf64::(NEG_INFINITY|INFINITY)\b', m):
+        for mm in re.finditer(r'\b(?:std::|core::)?f64::(NEG_INFINITY|INFINITY|EPSILON|MAX|MIN_POSITIVE|MIN|NAN)\b', m):
             if live(mm.start(), mm.end()) and not any(a <= mm.start() < b for a, b in ext):
-                self.rewrite(mm.start(), mm.end(), 'f64_neg_infinity()' if mm.group(1).startswith('NEG') else 'f64_infinity()', 'R2-infinity')
+                self.rewrite(mm.start(), mm.end(), {'NEG_INFINITY': 'f64_neg_infinity()', 'INFINITY': 'f64_infinity()', 'EPSILON': 'f64_epsilon()',
+                                                    'MAX': 'f64_max_value()', 'MIN': 'f64_min_value()', 'MIN_POSITIVE': 'f64_min_positive()',
+                                                    'NAN': 'f64_nan()'}[mm.group(1)], 'R2-f64-const')
         # R3  compound assignment
         for mm in re.finditer(r'([A-Za-z_][\w\.]*(?:\[[^\]]*\])?)\s*([+\-*/])=\s*', m):
             a = mm.start()
@@ -438,6 +448,8 @@ def weave(repo='/repo', contracts='/verif/contracts', extra_modules=()):
     w = Woven()
     w.files = {}
     w.lost_hints = []
+    w.lost_loops = []
+    w.lost_items = {}
     w.dropped = {}
     w.rewrites = {}
     w.unused = []
@@ -459,8 +471,11 @@ def weave(repo='/repo', contracts='/verif/contracts', extra_modules=()):
             raise WeaveError('%s: erasure check failed' % rel)
         for d in dirs:
             if not d.used:
-                raise AnchorLost('anchor lost: %r matches nothing in %s' % (d, rel))
+                # the item this contract belongs to is gone (renamed / restructured): every obligation of this module
+                # becomes undecided; the other modules are unaffected
+                w.lost_items.setdefault(rel, []).append(repr(d))
         w.lost_hints += fw.lost_hints
+        w.lost_loops += fw.lost_loops
         w.dropped[rel] = fw.dropped
         w.rewrites[rel] = fw.rewrites
         return fw, text, segs, inslog
